@@ -34,7 +34,9 @@ def snap(v, depth: int = 0, _path=()):
     """Snapshot of everything the library may not modify in `v` (recursive over __dict__; reference cycles such as
     t._inverse._inverse is t are cut at the first repetition on the current path)."""
     if isinstance(v, np.ndarray):
-        return _arr(v)
+        # ... including whether the caller may still write to its own array (a query that "protects" a view it hands
+        # out by clearing the writeable flag protects the operand's array too when the view IS that array)
+        return _arr(v) + (bool(v.flags.writeable),)
     if isinstance(v, Tensor):
         if id(v) in _path or depth > 12:
             return ("cycle", type(v).__name__)
@@ -91,7 +93,9 @@ def diff(old, new, path: str = "") -> list[tuple[str, str]]:
             return [(path, "array-dtype")]
         if old[2] != new[2]:
             return [(path, "array-shape")]
-        return [(path, "array-bytes")]
+        if old[3] != new[3]:
+            return [(path, "array-bytes")]
+        return [(path, "array-flags")]
     if old[0] == "set" and new[0] == "set":
         return [(path, "indexset")]
     if old[0] == "seq" and new[0] == "seq" and len(old[2]) == len(new[2]) and old[1] == new[1]:
